@@ -276,6 +276,10 @@ class _StmtCanon(ast.NodeTransformer):
         # input that fails anyway), nothing is swallowed or converted: for every run that does not raise, the statement is S
         if isinstance(st, ast.Try) and self.depth and not st.orelse and not st.finalbody and st.handlers and all(_reraises_same(h) for h in st.handlers):
             return self._stmts(st.body)
+        # `assert <test without calls other than isinstance / len / all / any ...>`: on every run that does not raise it does nothing (and with
+        # -O it is not even evaluated); the rules describe what the statements around it do
+        if isinstance(st, ast.Assert) and self.depth and _assert_is_inert(st):
+            return [ast.copy_location(ast.Pass(), st)]
         # table-driven loop over a literal
         if isinstance(st, ast.For) and not st.orelse and self.depth:
             un = self._unroll(st, before)
@@ -342,6 +346,19 @@ class _StmtCanon(ast.NodeTransformer):
             for s in _subst(st.body, m):
                 out.append(_fold_const_attr(s))
         return out
+
+
+def _assert_is_inert(st: ast.Assert) -> bool:
+    for n in ast.walk(st):
+        if isinstance(n, (ast.NamedExpr, ast.Await, ast.Yield, ast.YieldFrom, ast.Lambda)):
+            return False
+        if isinstance(n, ast.Call):
+            f = n.func
+            name = f.id if isinstance(f, ast.Name) else f.attr if isinstance(f, ast.Attribute) else None
+            if name not in ("isinstance", "len", "all", "any", "hasattr", "callable", "issubclass", "tuple", "int", "float", "abs", "max", "min", "sum", "sorted",
+                            "set", "list", "range", "type", "str", "repr", "is_dataclass", "isfinite", "isnan", "ndim", "issubdtype", "result_type", "shape"):
+                return False
+    return True
 
 
 def _strip_docstring(body):
